@@ -180,3 +180,133 @@ Proof.
   - rewrite (describes_put _ _ _ _ D).
     intros F. apply server_silent_iff_match_proof in F; [|discriminate]. vm_compute in F. discriminate.
 Qed.
+
+(* ---------- the printer (internal/printer.go as wired by run()) and the runner's reading end ---------- *)
+Open Scope N_scope.
+
+Lemma last_default {A} (l : list A) d d' : l <> [] -> last l d = last l d'.
+Proof.
+  induction l as [|x l IH]; intros H; [contradiction|].
+  destruct l as [|y l]; [reflexivity|]. cbn [last] in *. apply IH. discriminate.
+Qed.
+
+Lemma last_sep name d : last (name ++ sep_colon) d = 32.
+Proof.
+  unfold sep_colon. change [58; 32] with ([58] ++ [32]). rewrite app_assoc. apply last_last.
+Qed.
+
+Lemma feedback_line_names_test_verbatim_proof : forall w name msg,
+  pw_out (prefix_printf w name msg) = pw_out w ++ feedback_line name msg /\
+  pw_last (prefix_printf w name msg) = 10.
+Proof.
+  intros w name msg. unfold prefix_printf, feedback_line, ends_with_newline.
+  assert (L : pw_last (pw_write (pw_write w (name ++ sep_colon)) msg) = last msg 32).
+  { cbn [pw_write pw_last]. rewrite last_sep. reflexivity. }
+  rewrite L. destruct msg as [|c m].
+  - cbn [last]. change (32 =? 10) with false. change (0 =? 10) with false.
+    cbn [pw_write pw_out pw_last last]. split; [|reflexivity].
+    unfold sep_colon. rewrite <- !app_assoc. reflexivity.
+  - rewrite (last_default (c :: m) 32 0) by discriminate.
+    destruct (last (c :: m) 0 =? 10) eqn:E.
+    + cbn [pw_write pw_out pw_last]. rewrite last_sep. rewrite (last_default (c :: m) 32 0) by discriminate.
+      split; [|apply N.eqb_eq; exact E]. unfold sep_colon. rewrite app_nil_r, <- !app_assoc. reflexivity.
+    + cbn [pw_write pw_out pw_last last]. split; [|reflexivity].
+      unfold sep_colon. rewrite <- !app_assoc. reflexivity.
+Qed.
+
+Lemma print_feedback_lines text name f : forall w,
+  pw_out (print_feedback text w name f) = pw_out w ++ concat (map (fun k => feedback_line name (text k)) f).
+Proof.
+  induction f as [|k f IH]; intros w; cbn [print_feedback fold_left map concat].
+  - rewrite app_nil_r. reflexivity.
+  - fold (print_feedback text (prefix_printf w name (text k)) name f). rewrite IH.
+    destruct (feedback_line_names_test_verbatim_proof w name (text k)) as [-> _]. rewrite <- app_assoc. reflexivity.
+Qed.
+
+Lemma stderr_is_feedback_lines_proof : forall text w o,
+  pw_out (stderr_of text w o) =
+  pw_out w ++ match o with
+              | Served name f _ _ => concat (map (fun k => feedback_line name (text k)) f)
+              | Rejected => []
+              end.
+Proof.
+  intros text w [|name f t r]; cbn [stderr_of]; [rewrite app_nil_r; reflexivity|apply print_feedback_lines].
+Qed.
+
+(* the reading end *)
+Lemma trim_left_app x y : trim_left x <> [] -> trim_left (x ++ y) = trim_left x ++ y.
+Proof.
+  induction x as [|c x IH]; intros H; [contradiction|]. cbn [trim_left app] in *.
+  destruct (is_ascii_space c); [apply IH; exact H|reflexivity].
+Qed.
+
+Lemma trim_right_app x y : trim_right y <> [] -> trim_right (x ++ y) = x ++ trim_right y.
+Proof.
+  unfold trim_right. intros H. rewrite rev_app_distr, trim_left_app.
+  - rewrite rev_app_distr, rev_involutive. reflexivity.
+  - intros E. apply H. rewrite E. reflexivity.
+Qed.
+
+Lemma trim_right_newline m : trim_right (m ++ [10]) = trim_right m.
+Proof. unfold trim_right. rewrite rev_app_distr. reflexivity. Qed.
+
+Lemma split_sep_at name rest : no_colon_space name -> split_sep (name ++ 58 :: 32 :: rest) = Some (name, rest).
+Proof.
+  induction name as [|c n IH]; intros H.
+  - reflexivity.
+  - cbn [app split_sep].
+    assert (Hn : no_colon_space n).
+    { intros x y E. apply (H (c :: x) y). rewrite E. reflexivity. }
+    destruct ((c =? 58) && match n ++ 58 :: 32 :: rest with [] => false | d :: _ => d =? 32 end) eqn:E.
+    + exfalso. apply andb_prop in E. destruct E as [E1 E2]. apply N.eqb_eq in E1. subst c.
+      destruct n as [|d n']; cbn [app] in E2; [discriminate E2|].
+      apply N.eqb_eq in E2. subst d. apply (H [] n'). reflexivity.
+    + rewrite (IH Hn). reflexivity.
+Qed.
+
+Lemma feedback_line_trim name msg : trim_right msg <> [] ->
+  trim_right (feedback_line name msg) = name ++ 58 :: 32 :: trim_right msg.
+Proof.
+  intros NE. unfold feedback_line.
+  assert (R : trim_right (msg ++ (if ends_with_newline msg then [] else [10])) = trim_right msg).
+  { destruct (ends_with_newline msg); [rewrite app_nil_r; reflexivity|apply trim_right_newline]. }
+  replace (name ++ [58; 32] ++ msg ++ (if ends_with_newline msg then [] else [10]))
+    with ((name ++ [58; 32]) ++ (msg ++ (if ends_with_newline msg then [] else [10])))
+    by (rewrite <- app_assoc; reflexivity).
+  rewrite trim_right_app by (rewrite R; exact NE). rewrite R, <- app_assoc. reflexivity.
+Qed.
+
+Lemma feedback_line_attributed_proof : forall names name msg,
+  In name names -> no_colon_space name -> starts_visibly name -> trim_right msg <> [] ->
+  sideband names (feedback_line name msg) = Some (name, trim_right msg).
+Proof.
+  intros names name msg I NC (c & rest & E & V) NE. unfold sideband, trim_space.
+  assert (T : trim_left (feedback_line name msg) = feedback_line name msg).
+  { subst name. unfold feedback_line. cbn [app trim_left]. rewrite V. reflexivity. }
+  rewrite T, (feedback_line_trim name msg NE), (split_sep_at name (trim_right msg) NC).
+  assert (M : mem_bytes name names = true) by (apply mem_bytes_in; exact I).
+  rewrite M. reflexivity.
+Qed.
+
+(* composed with the matrix theorem: what the server writes to its stderr for a request of the matrix *)
+Lemma server_stderr_exact_proof : forall text fq name (e : axes) (a : actual) (p : procedure), name <> [] ->
+  pw_out (stderr_of text pw_init (snd (server fq [] p (with_expect name e (render a))))) =
+  concat (map (fun k => feedback_line name (text k)) (expected_feedback e (project a))).
+Proof.
+  intros text fq name e a p H. rewrite (server_feedback_exact_proof fq name e a p H). cbn [snd].
+  rewrite stderr_is_feedback_lines_proof. reflexivity.
+Qed.
+
+Lemma stderr_silent_iff_match_proof : forall text fq name (e : axes) (a : actual) (p : procedure), name <> [] ->
+  pw_out (stderr_of text pw_init (snd (server fq [] p (with_expect name e (render a))))) = [] <-> project a = e.
+Proof.
+  intros text fq name e a p H. rewrite server_stderr_exact_proof by exact H.
+  rewrite <- (server_silent_iff_match_proof fq name e a p H), (server_feedback_exact_proof fq name e a p H).
+  cbn [snd feedback_of]. destruct (expected_feedback e (project a)) as [|k f].
+  - split; reflexivity.
+  - split; [|discriminate]. cbn [map concat]. unfold feedback_line. intros E.
+    apply app_eq_nil in E. destruct E as [E _]. apply app_eq_nil in E. destruct E as [E _]. contradiction.
+Qed.
+
+Lemma no_colon_is_no_colon_space name : ~ In 58 name -> no_colon_space name.
+Proof. intros H x y E. apply H. rewrite E. apply in_or_app. right. left. reflexivity. Qed.
